@@ -56,7 +56,13 @@ func ZZ_C13_Group() {
 		return 100 + uint64(me), nil
 	}
 	res := make([]zzCallRes, N)
-	done := make(chan int, N)
+	done := make(chan int, N+1)
+	other := vfConfig("OTHER", 0) == 1
+	if other {
+		// a caller of another key shares the pool of call records: a record handed back too early is
+		// overwritten under the eyes of a caller that still reads it
+		vfSetRaceDetector(true)
+	}
 	for i := 0; i < N; i++ {
 		i := i
 		go func() {
@@ -70,11 +76,24 @@ func ZZ_C13_Group() {
 			res[i] = zzCallRes{val: v, err: err, returned: true}
 		}()
 	}
+	var otherVal uint64
+	var otherErr error
+	if other {
+		go func() {
+			otherVal, otherErr, _ = g.Do(2, func() (uint64, error) { return 777, nil })
+			done <- 1
+		}()
+		<-done
+	}
 	for i := 0; i < N; i++ {
 		<-done
 	}
 	vfSetPreemptions(0)
 	vfReach("all-callers-finished")
+	if other {
+		vfAssertNoRace("call-record-not-shared-while-read")
+		vfAssert("other-key-gets-its-own-result", otherErr == nil && otherVal == 777)
+	}
 	vfAssert("loader-ran", invocations >= 1 && invocations <= N)
 	for i := 0; i < N; i++ {
 		switch outcome {
